@@ -65,6 +65,13 @@ var acyclicFields = map[string]string{
 	"github.com/gopatchy/bkl.file.docs":        "documents of a loaded file",
 }
 
+type summaryKey struct {
+	fn          *ssa.Function
+	idx         int
+	allFields   bool
+	termination bool
+}
+
 type deriver struct {
 	p     *Prog
 	g     *CallGraph
@@ -567,7 +574,7 @@ func (d *deriver) callResult(c *ssa.Call, idx int) []Deriv {
 		return unknownD("result of recursive call to %s", d.p.FuncName(callee))
 	}
 	for _, x := range d.ctx {
-		if x == com {
+		if x == com || x.StaticCallee() == callee {
 			return unknownD("recursive summary")
 		}
 	}
@@ -576,16 +583,38 @@ func (d *deriver) callResult(c *ssa.Call, idx int) []Deriv {
 
 // summarise derives result idx of callee in its own context and substitutes the arguments of com.
 func (d *deriver) summarise(callee *ssa.Function, com *ssa.CallCommon, idx int) []Deriv {
-	d.ctx = append(d.ctx, com)
-	var raw []Deriv
-	for _, b := range callee.Blocks {
-		ret, ok := b.Instrs[len(b.Instrs)-1].(*ssa.Return)
-		if !ok || idx >= len(ret.Results) {
-			continue
+	cacheable := d.aliasSources == nil
+	for _, par := range callee.Params {
+		if _, isSig := par.Type().Underlying().(*types.Signature); isSig {
+			cacheable = false
 		}
-		raw = append(raw, d.derive(retValue(ret, idx))...)
 	}
-	d.ctx = d.ctx[:len(d.ctx)-1]
+	key := summaryKey{callee, idx, d.allFields, d.scc != nil}
+	var raw []Deriv
+	if c, ok := d.p.summaryCache[key]; ok && cacheable {
+		raw = c
+	} else {
+		d.ctx = append(d.ctx, com)
+		// the summary is computed in the callee's own context: hide the caller's in-progress values
+		savedSeen := d.seen
+		d.seen = map[ssa.Value]bool{}
+		for _, b := range callee.Blocks {
+			ret, ok := b.Instrs[len(b.Instrs)-1].(*ssa.Return)
+			if !ok || idx >= len(ret.Results) {
+				continue
+			}
+			raw = append(raw, d.derive(retValue(ret, idx))...)
+		}
+		d.seen = savedSeen
+		d.ctx = d.ctx[:len(d.ctx)-1]
+		raw = dedupDerivs(raw)
+		if cacheable {
+			if d.p.summaryCache == nil {
+				d.p.summaryCache = map[summaryKey][]Deriv{}
+			}
+			d.p.summaryCache[key] = raw
+		}
+	}
 	if len(raw) == 0 {
 		return unknownD("no return in %s", d.p.FuncName(callee))
 	}
